@@ -137,6 +137,13 @@ pub fn run(tier: Tier) -> Run {
             }
             // a module that already holds this declaration WITHOUT a result id (as a loader delivers result-less opcodes)
             hs.push(vec![BOp::AdoptWithoutId(si), x.clone(), x.clone(), x.clone()]);
+            // the declaration's id is MENTIONED by a debug / annotation / entry-point instruction (as every struct of a real
+            // shader is): the next identical request must still find it
+            for kind in 0..8u8 {
+                hs.push(vec![x.clone(), BOp::MentionLastType(kind), x.clone(), x.clone()]);
+                hs.push(vec![x.clone(), BOp::MentionLastType(kind), BOp::MentionLastType(kind), BOp::Continue, x.clone()]);
+                hs.push(vec![x.clone(), BOp::MentionLastType(kind), BOp::Reload, x.clone()]);
+            }
             for k in 0..4 {
                 let r = BOp::TypeCallRef(si, k);
                 hs.push(vec![BOp::ConstantBit32, r.clone(), BOp::ConstantBit32, r.clone()]);
